@@ -51,6 +51,19 @@ class Bits32:
         assert abs(cst * 2**32 - 1) < 1e-9
         return self.u
 
+    def __rshift__(self, k):
+        # the top byte of the word is floor(256 u) (not independent of u at all): decided by bisection on u, 256 outcomes
+        if k != 24:
+            raise Unsupported(f"32-bit word >> {k}")
+        lo, hi = 0, 256
+        while hi - lo > 1:
+            mid = (lo + hi) // 2
+            if self.u < Fraction(mid, 256):
+                hi = mid
+            else:
+                lo = mid
+        return lo
+
     __rmul__ = __mul__
 
 
@@ -132,15 +145,20 @@ def table_measure(p):
     1/256); the residual alias sampler is measured on a fine grid of its own uniform"""
     s = TABLE.TableMethod(np.array([float(x) for x in p]), ident)
     J = [int(j) for j in s.J]
-    meas = {}
-    for j in J:
-        if j >= 0:
-            meas[j] = meas.get(j, 0.0) + 1.0 / 256
-    rest = sum(1 for j in J if j < 0)
-    if rest:
-        emp = empirical_measure(lambda u: int(s.alias_method._draw_with_u(u)), len(p), grid=100000)
-        for k, v in emp.items():
-            meas[k] = meas.get(k, 0.0) + v * rest / 256
+    # the real _sample_one on a lattice of 32-bit words: every low byte x 1024 equally spaced values of the upper 24 bits (the residual
+    # sampler, reached from at most 255 of the low bytes, sees 1024 equally spaced uniforms: resolution 1/(1024*256) of the total mass)
+    H = 1024
+    cnt = {}
+    try:
+        for hi in range(H):
+            top = int((hi + 0.5) / H * 2**24)
+            for lo in range(256):
+                RANDOM.next = (top << 8) | lo
+                k = int(TABLE._sample_one(s.J, s.alias_method, s._cst, ident))
+                cnt[k] = cnt.get(k, 0) + 1
+    finally:
+        RANDOM.next = None
+    meas = {k: c / (256 * H) for k, c in cnt.items()}
     return meas, len(J)
 
 
@@ -467,8 +485,11 @@ def harnesses(tier):
     for L, R in ([(1, 1), (1, 2), (2, 1)] if q else [(1, 1), (1, 2), (2, 1), (2, 2), (1, 3), (3, 1), (2, 3)]):
         hs.append(Harness(f"inversion.{L}.{R}", h_inversion, {"L": L, "R": R}, max_paths=2000))
     # the adapted binary search tree in several dimensions lives on a copula chain: same harness as C01's, obligations reported here
-    from .c01_rates import h_bsta_nd
+    from .c01_rates import h_bsta_nd, h_bsta1d
 
+    for nl, nr in ((1, 1),) if q else ((1, 1), (2, 1), (2, 2)):
+        hs.append(Harness(f"bsta1d.{nl}.{nr}", h_bsta1d, {"nl": nl, "nr": nr, "lam_value": 1, "prefix": "C02"}, max_paths=4000))
+    hs.append(Harness("bsta1d.2.2.after_another_chain", h_bsta1d, {"nl": 2, "nr": 2, "lam_value": 1, "history": True, "prefix": "C02"}, max_paths=4000))
     hs.append(Harness("bsta.2d.1", h_bsta_nd, {"d": 2, "npts": 1, "prefix": "C02"}, max_paths=4000, batch=1))
     hs.append(Harness("bsta.2d.2", h_bsta_nd, {"d": 2, "npts": 2, "prefix": "C02"}, max_paths=4000, batch=1))
     if not q:
